@@ -19,14 +19,18 @@ from __future__ import annotations
 import copy
 
 CHILD_TYPES = {'MdsDescriptor': ['VmdDescriptor', 'VmdDescriptor', 'SystemContextDescriptor'],
-               'VmdDescriptor': ['ChannelDescriptor'],
-               'ChannelDescriptor': ['NumericMetricDescriptor'],
+               'VmdDescriptor': ['ChannelDescriptor', 'ChannelDescriptor', 'ChannelDescriptor', 'AlertSystemDescriptor', 'ScoDescriptor'],
+               'ChannelDescriptor': ['NumericMetricDescriptor', 'NumericMetricDescriptor', 'NumericMetricDescriptor',
+                                     'RealTimeSampleArrayMetricDescriptor'],
+               'ScoDescriptor': ['ActivateOperationDescriptor'],
                'SystemContextDescriptor': ['PatientContextDescriptor']}
 CHILD_TYPE = {k: v[0] for k, v in CHILD_TYPES.items()}
 # the schema allows at most one of these below one parent (matters when the whole MDIB is serialised: GetMdib)
-SINGLETON = {'SystemContextDescriptor', 'PatientContextDescriptor'}
+SINGLETON = {'SystemContextDescriptor', 'PatientContextDescriptor', 'AlertSystemDescriptor', 'ScoDescriptor'}
 TX_OF_TYPE = {'NumericMetricDescriptor': 'metric', 'ChannelDescriptor': 'comp', 'VmdDescriptor': 'comp',
-              'MdsDescriptor': 'comp', 'SystemContextDescriptor': 'comp', 'PatientContextDescriptor': 'ctx'}
+              'MdsDescriptor': 'comp', 'SystemContextDescriptor': 'comp', 'PatientContextDescriptor': 'ctx',
+              'AlertSystemDescriptor': 'alert', 'ScoDescriptor': 'comp', 'ActivateOperationDescriptor': 'op',
+              'RealTimeSampleArrayMetricDescriptor': 'rt'}
 
 DEFAULT_WEIGHTS = {'state': 5, 'ctx': 2, 'location': 1, 'descr': 3, 'reject': 1, 'abort': 1, 'macro': 2}
 
@@ -143,7 +147,7 @@ class Gen:
         self.slots[self.nslot] = {'h': h, 'cs': self.ctx_of(h), 'dirty': False}
         return {'k': 'read', 'handle': h, 'slot': self.nslot}
 
-    def op_state(self, tx=None, interleave=None, iface=None, handles=None):
+    def op_state(self, tx=None, interleave=None, iface=None, handles=None, dup=None):
         if tx is None:
             kinds = ['metric', 'metric', 'alert', 'comp', 'op', 'rt']
             multi = [k for k in ('metric', 'alert', 'comp', 'op', 'rt') if len(self.by_mds(self.state_pool(k))) > 1]
@@ -171,7 +175,7 @@ class Gen:
                 it.append(s)
                 tag.append('stale-entity')
             items.append(it)
-        if self.rng.random() < 0.12:
+        if dup if dup is not None else self.rng.random() < 0.12:
             # the same handle twice in one transaction: get_state refuses the second one (the whole transaction is
             # abandoned), write_entity replaces the first write
             j = self.rng.randrange(len(items))
@@ -426,7 +430,7 @@ class Gen:
                     acts.append(['upd', h, self.fresh()])      # twice in one transaction: refused by both interfaces
                 elif h not in ctxd and self.rng.random() < 0.35 and iface == 'classic' and self.types[h] in TX_OF_TYPE:
                     acts.append(['state', h, self.fresh()])         # descriptor and its state in one transaction
-        elif r < 0.68 and self.inv['alert_cond']:
+        elif r < 0.72 and self.inv['alert_cond']:
             live_c = [h for h in self.inv['alert_cond'] if h in self.tree]
             live_s = [h for h in self.inv['alert_sig'] if h in self.tree]
             metrics = self.live('metric')
@@ -921,6 +925,99 @@ class Gen:
             ops.append({'k': 'descr', 'iface': iface, 'actions': [['upd', h, self.fresh()], ['upd', h, self.fresh()]]})
         return ops
 
+    def every_kind_ops(self):
+        """one committed transaction of every kind: each kind of report (metric, alert, component, operational,
+        waveform, context - also a location change -, description modification) is sent once"""
+        ops = []
+        for tx in ('metric', 'alert', 'comp', 'op', 'rt'):
+            pool = self.state_pool(tx)
+            if pool:
+                ops.append(self.op_state(tx, interleave=False, handles=[self.pick(pool)], dup=False))
+        dhs = self.live('ctx')
+        if dhs:
+            acts = []
+            i = self.iface()
+            self._mk(self.pick(dhs), i, acts, explicit=True)
+            ops.append({'k': 'ctx', 'iface': i, 'actions': acts})
+            op = self.op_location() if self.rng.random() < 0.5 else None
+            if op:
+                ops.append(op)
+        leaf = self.new_leaf()
+        if leaf:
+            ops.append({'k': 'descr', 'iface': self.iface(), 'actions': [self.add_action(*leaf, None)]})
+        self.rng.shuffle(ops)
+        if leaf:
+            ops.append({'k': 'descr', 'iface': self.iface(), 'actions': [['upd', leaf[0], self.fresh()]]})
+        return ops
+
+    def ensure_gen(self, kind, ops):
+        """(handle, root): a generated descriptor whose state belongs to transaction kind `kind`, and the generated
+        descriptor to remove in order to remove it (itself or an ancestor)"""
+        def add(h, p, t):
+            ops.append({'k': 'descr', 'iface': self.iface(), 'actions': [self.add_action(h, p, t, None)]})
+            return h
+        vmds = [h for h in self.tree if self.types[h] == 'VmdDescriptor']
+        mdss = [h for h in self.tree if self.types[h] == 'MdsDescriptor']
+        if kind == 'ctx':
+            pc = self.ensure_gen_pc(self.iface, ops)
+            if not self.ctx_of(pc):
+                acts = []
+                self._mk(pc, 'entity', acts, explicit=True, assoc=False)
+                ops.append({'k': 'ctx', 'iface': self.iface(), 'actions': acts})
+            return pc, pc
+        if kind in ('metric', 'comp', 'rt') and vmds:
+            ch = add(f'g_{self.fresh()}', self.pick(vmds), 'ChannelDescriptor')
+            if kind == 'comp':
+                return ch, ch
+            m = add(f'g_{self.fresh()}', ch, 'NumericMetricDescriptor' if kind == 'metric' else 'RealTimeSampleArrayMetricDescriptor')
+            return m, self.rng.choice([m, ch])
+        if kind in ('alert', 'op') and mdss:
+            v = add(f'g_{self.fresh()}', self.pick(mdss), 'VmdDescriptor')
+            if kind == 'alert':
+                return add(f'g_{self.fresh()}', v, 'AlertSystemDescriptor'), v
+            sco = add(f'g_{self.fresh()}', v, 'ScoDescriptor')
+            return add(f'g_{self.fresh()}', sco, 'ActivateOperationDescriptor'), self.rng.choice([v, sco])
+        return None, None
+
+    def macro_stale_after_delete(self, kinds=None):
+        """a state report of kind K is withheld, the descriptor is removed (that report is delivered), then the
+        withheld - by now stale - state report arrives ('deliver' = delivery directive for the fault streams)"""
+        ops = []
+        for kind in kinds or [self.rng.choice(['metric', 'alert', 'comp', 'op', 'rt', 'ctx'])]:
+            h, root = self.ensure_gen(kind, ops)
+            if h is None:
+                continue
+            for o in ops:
+                o.setdefault('deliver', ['all'])
+            if kind == 'ctx':
+                ops.append({'k': 'ctx', 'iface': self.iface(), 'actions': [['get', s, self.fresh(), None] for s in self.ctx_of(h)[:2]],
+                            'deliver': ['hold']})
+            else:
+                ops.append({'k': 'state', 'tx': kind, 'iface': self.iface(), 'items': [[h, self.fresh()]], 'deliver': ['hold']})
+            ops.append({'k': 'descr', 'iface': self.iface(), 'actions': [['del', root]], 'deliver': ['cur'],
+                        'tag': ['delete-overtakes-' + kind]})
+            self._del(root)
+            ops.append({'k': 'state', 'tx': 'metric', 'iface': 'classic', 'items': [], 'deliver': ['all']})
+        return ops
+
+    def macro_indexed_attributes(self):
+        """descriptor updates that change an attribute the descriptions table is indexed by: Source of an alert
+        condition, ConditionSignaled of an alert signal (another condition, none, a condition again)"""
+        live_c = [h for h in self.inv['alert_cond'] if h in self.tree]
+        live_s = [h for h in self.inv['alert_sig'] if h in self.tree]
+        metrics = self.live('metric')
+        ops = []
+        if live_c and metrics:
+            c = self.rng.choice(live_c)
+            for k in (2, 0, 1):
+                ops.append({'k': 'descr', 'iface': 'classic', 'actions': [['updsrc', c, self.rng.sample(metrics, min(k, len(metrics)))]]})
+        if live_s and live_c:
+            sig = self.rng.choice(live_s)
+            conds = self.rng.sample(live_c, min(2, len(live_c)))
+            for v in ([conds[0]], [conds[-1]], [], [conds[0]]):
+                ops.append({'k': 'descr', 'iface': 'classic', 'actions': [['updsrc', sig, v]]})
+        return ops
+
     def macro_interleave(self):
         """every state transaction kind with states of two MDSs in an order in which the MDSs alternate"""
         ops = []
@@ -937,9 +1034,10 @@ class Gen:
 
     def macro(self):
         k = self.rng.choice(['cycles', 'cycles', 'ctx_cycles', 'abort_recreate', 'abort_recreate', 'stale', 'stale', 'stale',
-                             'new_mds', 'ctx_descr_upd', 'ctx_descr_upd'] + (['delstate_cycles'] if self.w.get('delstate') else []))
+                             'new_mds', 'ctx_descr_upd', 'ctx_descr_upd', 'overtake'] + (['delstate_cycles'] if self.w.get('delstate') else []))
         return {'delstate_cycles': self.macro_delstate_cycles, 'cycles': self.macro_cycles, 'ctx_cycles': self.macro_ctx_cycles, 'abort_recreate': self.macro_abort_recreate,
-                'stale': self.macro_stale, 'new_mds': self.macro_new_mds, 'ctx_descr_upd': self.macro_ctx_descr_upd}[k]()
+                'stale': self.macro_stale, 'new_mds': self.macro_new_mds, 'ctx_descr_upd': self.macro_ctx_descr_upd,
+                'overtake': self.macro_stale_after_delete}[k]()
 
     def history(self, nops):
         ops = []
@@ -993,7 +1091,8 @@ def _sc_cycles(g, mode):
 
 
 def _sc_cycles_stale(g, mode):
-    return g.macro_cycles(None, cycles=2, stale=True) + g.macro_stale(mode, 'state') + g.macro_stale(mode, 'descr')
+    return (g.macro_cycles(None, cycles=2, stale=True) + g.macro_stale(mode, 'state') + g.macro_stale(mode, 'descr') +
+            g.macro_indexed_attributes())
 
 
 def _sc_new_mds(g, mode):
@@ -1034,7 +1133,12 @@ def _sc_family(g, mode):
     return g.macro_family(mode) + g.macro_cycles(mode, cycles=2, stale=False)
 
 
-SCENARIOS = [_sc_cycles, _sc_cycles_stale, _sc_new_mds, _sc_ctx, _sc_abort, _sc_interleave, _sc_stale, _sc_family]
+def _sc_overtake(g, mode):
+    return g.macro_stale_after_delete(['metric', 'alert', 'comp', 'op', 'rt', 'ctx'])
+
+
+SCENARIOS = [_sc_cycles, _sc_cycles_stale, _sc_new_mds, _sc_ctx, _sc_abort, _sc_interleave, _sc_stale, _sc_family,
+             _sc_overtake]
 
 
 # ----------------------------------------------------------------------------- oracles on implementation traces
@@ -1275,8 +1379,11 @@ def oracle_reports(case, result):
 
 def oracle_consumer(case, result):
     """C01 (mirror + notifications), C11 (consumer index), C06-style regressions; yields (property, step, why)."""
+    if result['init'].get('error'):
+        yield 'C01', -1, 'the initial load' + _window(result['init'].get('during')) + ' failed: ' + result['init']['error'][:300]
     if result['init'].get('mirror0'):
-        yield 'C01', -1, f'after the initial load the consumer differs from the provider: {result["init"]["mirror0"][0]}'
+        yield 'C01', -1, ('after the initial load' + _window(result['init'].get('during')) +
+                          f' the consumer differs from the provider: {result["init"]["mirror0"][0]}')
     for n, (op, st) in enumerate(zip(case['ops'], result['trace'])):
         if 'cons' not in st:
             return
@@ -1321,8 +1428,10 @@ def fault_schedule(rng, nops):
             toks = ['drop']
         elif r < 0.72:
             toks = ['dup']
-        elif r < 0.84:
+        elif r < 0.82:
             toks = ['rev']
+        elif r < 0.9:
+            toks = ['cur']               # what this transaction sent overtakes everything still withheld
         else:
             toks = ['newest']
         if rng.random() < 0.3:
@@ -1333,6 +1442,14 @@ def fault_schedule(rng, nops):
             toks.append('last')          # a duplicate of the newest report the consumer has seen (same MdibVersion)
         sched.append(toks)
     return sched
+
+
+def _window(log):
+    """' (N reports of kinds ... arrived while GetMdib was in flight)' for the messages about a load"""
+    if not log:
+        return ''
+    kinds = sorted({r[0] for sub in log for r in sub.get('reports', []) if r[0]})
+    return ' (while GetMdib was in flight the provider committed ' + str(len(log) - 1) + ' transactions: ' + ', '.join(kinds) + ')'
 
 
 def oracle_faults(case, result):
@@ -1348,18 +1465,38 @@ def oracle_faults(case, result):
     publish(init, False)
     ct = Tables(init)                      # the consumer starts as a mirror (checked by C01's oracle)
     if result['init'].get('mirror0'):
-        yield 'C06', -1, 'after the initial load the consumer is not a mirror'
+        yield 'C06', -1, ('after the initial load' + _window(result['init'].get('during')) +
+                          f' the consumer is not a mirror: {result["init"]["mirror0"][0]}')
+    if result['init'].get('error'):
+        yield 'C06', -1, 'the initial load' + _window(result['init'].get('during')) + ' failed: ' + result['init']['error'][:300]
+    for p in result['init'].get('cons_problems') or []:
+        yield 'C06', -1, 'after the initial load' + _window(result['init'].get('during')) + ': ' + p
+    if result['init'].get('cmode', 'initialized') != 'initialized':
+        yield 'C06', -1, f'after the initial load the consumer state is {result["init"]["cmode"]}'
     frozen = False
     cur_seq = init['seq']                  # the SequenceId the consumer mdib currently follows
     for n, (op, st) in enumerate(zip(case['ops'], result['trace'])):
+        for sub in st.get('during') or []:
+            if 'prov' in sub:
+                publish(sub['prov'], True)      # values the provider held in between (transactions inside the window)
         publish(st['prov'], True)
         c = st['cons']
         if st['res'].startswith('Other'):
             yield 'C06', n, 'unexpected exception: ' + st['res'][:200]
+        if op['k'] == 'reload' and st['res'] != 'ok':
+            yield 'C06', n, 'reload_all' + _window(st.get('during')) + ' failed: ' + st['res'][:300]
+        # a (context) state in the wrong table is always wrong; a state without descriptor only after a load (under
+        # lost / delayed description reports a FRESH state report for a descriptor the consumer has not seen yet is
+        # taken as it is; a STALE one must not change anything: judged per delivery below)
+        for p in [p for p in c.get('table_problems') or [] if op['k'] == 'reload' or p.startswith('the single-state table')][:2]:
+            yield 'C06', n, 'consumer' + (_window(st.get('during')) if op['k'] == 'reload' else '') + ': ' + p
         reloaded = op['k'] == 'reload' and st['res'] == 'ok'
         if reloaded:
+            if c['index_problems']:
+                yield 'C06', n, 'after reload_all the consumer lookups are inconsistent: ' + c['index_problems'][0]
             if st['mirror']:
-                yield 'C06', n, f'after reload_all the consumer is not a mirror of the provider: {st["mirror"][0]}'
+                yield 'C06', n, (f'after reload_all{_window(st.get("during"))} the consumer is not a mirror of the provider: '
+                                 f'{st["mirror"][0]}')
             if st.get('cmode') != 'initialized':
                 yield 'C06', n, f'after reload_all the consumer state is {st.get("cmode")}'
             frozen = False
@@ -1396,6 +1533,10 @@ def oracle_faults(case, result):
             if r.get('seq') is not None and r.get('seq') != cur_seq and r['changed']:
                 yield 'C06', n, ('a report with a different SequenceId was applied: it changed ' +
                                  ', '.join(PART[k] for k in r['changed']))
+            elif (r.get('ver') is not None and r.get('cver') is not None and r['ver'] < r['cver'] and r['changed']
+                  and r.get('cmode') == 'initialized'):
+                yield 'C06', n, (f'a stale {r.get("kind")} (MdibVersion {r["ver"]}, the consumer was at {r["cver"]}) changed the '
+                                 'consumer: ' + ', '.join(PART[k] for k in r['changed']))
             elif r.get('again') and r['changed']:
                 yield 'C06', n, ('a notification that had been delivered before changed the consumer again: ' +
                                  ', '.join(PART[k] for k in r['changed']) + f' ({r.get("kind")})')
